@@ -3,6 +3,7 @@
 # demonstration with and without it and the named checks against it; prints a summary. Never touches /repo.
 P=$1; D=$2; shift 2; CHECKS=${*:-$P}
 W=/var/tmp/vr-main
+[ -d $W ] || git -C /repo worktree add -q --detach $W HEAD
 cd $W && git checkout -q -- . && git checkout -q --detach "$(git -C /repo rev-parse HEAD)" || exit 2
 echo "== demo on original"; (cd $W && cp $D/demo_$P.py . && PYTHONPATH=$W timeout 300 /venv/bin/python demo_$P.py 2>&1 | grep -v Warning | tail -3; echo "exit $?")
 git apply $D/patch.diff || { echo "PATCH DOES NOT APPLY"; exit 3; }
